@@ -212,23 +212,27 @@ class _NoSteps:
 
 
 def measure(db, text, mem=False, limit=None, steps=True):
-    """One real expansion under the step counter and tracemalloc.
+    """One real expansion: Expander(...) then expandTemplates(), both under the step counter; the
+    allocation peak (tracemalloc) is taken over expandTemplates() only — setting up an Expander
+    allocates the same ~130 KiB for every input and tracing it costs more than the expansion.
     -> dict(ok, out_len, steps, peak, err, where, cls)"""
     import tracemalloc
 
-    from harness.templwiki import StepCounter, expand
+    from harness.templwiki import StepCounter
+    from mwlib.parser.templ.evaluate import Expander
     kw = {} if limit is None else {"recursion_limit": limit}
     from mwlib.parser import expr as _expr
     _expr._cache.clear()          # #expr memoises results per process: every case is measured cold
     r = {"ok": False, "out_len": 0, "steps": 0, "peak": 0, "err": None, "where": None, "cls": None, "count": None}
-    if mem:
-        tracemalloc.start()
     signal.signal(signal.SIGALRM, _alarm)
     signal.alarm(WATCHDOG_S)
     sc = StepCounter() if steps else _NoSteps()
     try:
         with sc:
-            out, e = expand(db, text, **kw)
+            e = Expander(text, pagename="Main", wikidb=db, **kw)
+            if mem:
+                tracemalloc.start()
+            out = e.expandTemplates()
         r["steps"] = sc.n
         r["count"] = e.recursion_count
         if isinstance(out, str):
@@ -245,7 +249,7 @@ def measure(db, text, mem=False, limit=None, steps=True):
         signal.alarm(0)
         import sys
         sys.setprofile(None)
-        if mem:
+        if mem and tracemalloc.is_tracing():
             r["peak"] = tracemalloc.get_traced_memory()[1]
             tracemalloc.stop()
     return r
@@ -302,9 +306,12 @@ def _call_worker(args):
     idx, lang, names, cases, scratch = args
     db = site_db(scratch, lang)
     cache, bad, n = _TWINS.setdefault((os.getpid(), lang), {}), [], 0
+    t0 = time.time()
     for c in cases:
         n += 1
         bad.extend(judge_call(lang, names[c["n"] - 1], c["s"], c["twin"], db, cache))
+    if os.environ.get("C03_TIMING"):
+        print("  job %d pid %d: %d cases %.1fs" % (idx, os.getpid(), n, time.time() - t0), flush=True)
     return n, bad
 
 
